@@ -526,6 +526,8 @@ class Family:
                 synerr = True
             ev = self._cmd_ev(cmd, r, k)
             c = cmd["c"]
+            if c in ("get-model", "get-value", "get-assignment", "get-unsat-core", "get-interpolants", "get-proof"):
+                ev["rh"] = outhash(" ".join(seg.split()))      # what was printed, for the clean / with-rejected comparison
             if r != "error":
                 try:
                     self._fill(ev, cmd, seg, lines, mir, sig, mon, run)
@@ -554,7 +556,7 @@ class Family:
         return evs
 
     def _cmd_ev(self, cmd, r, k):
-        ev = {"e": "Cmd", "c": cmd["c"], "r": r, "ci": cmd.get("ci", 0), "must": cmd.get("must", ""), "i": k + 1,
+        ev = {"e": "Cmd", "c": cmd["c"], "r": r, "rh": "", "ci": cmd.get("ci", 0), "must": cmd.get("must", ""), "i": k + 1,
               "hasNamed": bool(cmd.get("nm") or cmd.get("inner") or ":named" in cmd.get("text", ""))}
         c = cmd["c"]
         if c == "set-option":
